@@ -110,6 +110,34 @@ def check_input(ctx, Gn, Sn, lm, pairs, thl_pairs):
     ctx.count("mon.reindexed")
     for mon, msg in judge_mapping(B, obs2):
         ctx.viol(f"C07.{mon}", dict(case0, history="children reversed in place, trees indexed again"), msg + " (second run on the same tree objects after an in-place child reordering)")
+    # history: two leaves of the object tree are exchanged IN PLACE (same root, same node objects, same input object),
+    # and the very same input object is reconciled again: the answer must be the LCA mapping of the tree as it is now
+    leaves_now = [x for x in B.gt.iter_leaves()]
+    if len(leaves_now) >= 3 and len(B.G.leaves()) <= 12:
+        a = leaves_now[0]
+        b = next((x for x in reversed(leaves_now) if x.up is not a.up), None)
+        if b is not None:
+            pa, pb = a.up, b.up
+            ia, ib = pa.children.index(a), pb.children.index(b)
+            pa.children[ia], pb.children[ib] = b, a
+            a.up, b.up = pb, pa
+            G2, gid2 = bridge.model_from_ete(B.gt)
+            name2 = {G2.name[v]: v for v in G2.leaves()}
+            sname = {B.S.name[v]: v for v in B.S.nodes if B.S.name[v] is not None}
+            leafmap2 = {name2[g]: sname[s] for g, s in lm.items()}
+            want2 = bridge.canon(G2, B.S, dtl.lca_mapping(G2, B.S, leafmap2))
+            obs3 = SC.call("lca", B.inp)
+            ctx.count("evaluations")
+            ctx.count("mon.after_leaf_exchange")
+            hist = dict(case0, history=f"leaves {a.name} and {b.name} of the object tree exchanged in place, same input object reconciled again")
+            if obs3.exc is not None:
+                ctx.viol("C07.total", hist, f"reconcile_lca raised after an in-place leaf exchange: {obs3.exc}")
+            elif len(obs3.ext) != 1 or obs3.ext[0]["problems"] or set(obs3.ext[0]["m"]) != set(obs3.ext[0]["G"].nodes):
+                ctx.viol("C07.mapping", hist, "reconcile_lca did not return one complete reconciliation after an in-place leaf exchange")
+            else:
+                e3 = obs3.ext[0]
+                if bridge.canon(e3["G"], e3["S"], e3["m"]) != want2:
+                    ctx.viol("C07.mapping", hist, "after an in-place exchange of two leaves of the object tree, the same input object is not mapped to the LCA mapping of the tree as it is now")
     n = dtl.event_counts(B.G, B.S, lca_m)
     ctx.sig((len(B.G.leaves()), len(B.S.leaves()), n["SPE"], n["DUP"], n["LOSS"]), len(B.G.leaves()) >= 2 and n["DUP"] + n["LOSS"] > 0)
     if len(lm) >= 3 and n["DUP"] + n["LOSS"] > 0:
